@@ -52,7 +52,11 @@ def solve_adaptive_save_every_step(solver, error, control=None, clip_dt=False):
         rejection_loop_apply = func.jit(loop.loop)
 
         solutions = []
-        while state.step_from.t < t1:
+        # Use the same test as RejectionLoop.loop / solve_adaptive_save_at's `advance`:
+        # if a step ends inside [t1 - eps, t1) (e.g. a clipped step that rounds to t1 - 1ulp),
+        # `loop` neither steps nor moves step_from, and `step_from.t < t1` would spin forever,
+        # appending the same interpolate_fwd_at_t1 solution again and again.
+        while state.step_from.t + eps < t1:
             solution, state = rejection_loop_apply(
                 state, t1=t1, eps=eps, atol=atol, rtol=rtol, damp=damp
             )
